@@ -29,8 +29,12 @@
   show the first guard is void for update handlers, for watching/spawning/indexing causes and for causes
   without an old state (the second one stays: private-token abuse);
   `oldOnlyFree_of_unchanged` / `oldOnlyFree_of_noOld` are syntactic sufficient conditions.
-  Equality ("changed", "equals") is Python's `==` on both sides (`PyVal.eq`): bool/int coercion can
-  never show up as a doc gap (the harness keeps it out of the judged set).
+  "Equals" (a literal criterion against a value) is Python's `==` on both sides (`PyVal.eq`): bool/int
+  coercion can never show up as a doc gap there (the harness keeps it out of the judged set). "Changed"
+  is equality as JSON VALUES (`PyVal.same`, kopf's `diffs._same`): since /repo 8d1358b the code decides
+  it as the diff does (`fieldChanged`), under the law `PyLaw` (JSON equality refines `==`; for parsed
+  JSON: `pyEq_of_jsame`) that is exactly `Affected` -- `field_changed_iff`; before the repair `1 -> true`
+  was no change for `@on.field` / `@on.update(field=...)`: `field_changed_bool_regression`.
 -/
 import Kopf.Lemmas.C15_Match
 import Kopf.Lemmas.C15_Cycle
@@ -75,8 +79,10 @@ def SideHolds : VCrit V → Option V → Prop
 def IsUpdate (h : Handler V) : Prop := h.changing = true ∧ h.fieldNeedsChange = true
 
 /-- "a change means not only an actual change of the value, but also a change in whether the field
-    is present or absent" -/
-def Affected (o n : Option V) : Prop := reseq o n = false
+    is present or absent" -- the property's "the field actually changed": the two states of the field are
+    not the same JSON value (`ressame`: a boolean is never a number; Python's `==` would equate
+    `true` and `1`: before /repo 8d1358b the code did, `field_changed_bool_regression`) -/
+def Affected (o n : Option V) : Prop := ressame o n = false
 
 /-- the field-related rules for a handler with `field=p` -/
 structure FieldSpec (h : Handler V) (c : Cause V) (p : List String) : Prop where
@@ -233,7 +239,7 @@ theorem matchesWhen_iff (h : Handler V) : matchesWhen h = true ↔ ∀ b, h.when
   cases h.when <;> simp
 
 /-- the field part of `match`, code vs. docs, for a handler with a real field path -/
-theorem field_part_iff (h : Handler V) (c : Cause V) (p : List String) (hf : h.field = some p)
+theorem field_part_iff [PyLaw V] (h : Handler V) (c : Cause V) (p : List String) (hf : h.field = some p)
     (hp : p ≠ []) (hR : TokenFree h c) (hOld : OldOnlyFree h c) :
     (matchesFieldValues h c = true ∧ matchesFieldChanges h c = true) ↔ FieldSpec h c p := by
   have hhas : hasField h = true := (hasField_true_iff h).2 ⟨p, hf, hp⟩
@@ -267,8 +273,8 @@ theorem field_part_iff (h : Handler V) (c : Cause V) (p : List String) (hf : h.f
         simp [currentOnlyCore, curAtoms, needsChangeAttr, h1, h2]
       have oI := sideCore_iff h.old (c.old p) (rS h1).1
       have nI := sideCore_iff h.new (c.new p) (rS h1).2
-      simp only [hcur, true_and, matchesFieldChanges, fcCore, changeCore, hc, hhas, hpath, h1, h2, Bool.not_true,
-        if_false, Bool.false_or, Bool.and_eq_true, Bool.not_eq_true', oI, nI, Bool.false_eq_true]
+      simp only [hcur, true_and, matchesFieldChanges, fcCore, changeCore, fieldChanged_eq, hc, hhas, hpath, h1, h2,
+        Bool.not_true, if_false, Bool.false_or, Bool.and_eq_true, Bool.not_eq_true', oI, nI, Bool.false_eq_true]
       constructor
       · rintro ⟨hv, ⟨hch, ho⟩, hn⟩
         exact ⟨fun _ _ => ⟨hch, hv.symm⟩, fun hne => absurd ⟨hc, h1, h2⟩ hne, fun _ _ => ⟨ho, hn⟩⟩
@@ -319,7 +325,7 @@ theorem field_part_iff (h : Handler V) (c : Cause V) (p : List String) (hf : h.f
 
 /-- match = the documented criteria, under the exact guards (see the header for the full statement
     and why it is false without them). -/
-theorem match_eq_doc_partial (h : Handler V) (c : Cause V)
+theorem match_eq_doc_partial [PyLaw V] (h : Handler V) (c : Cause V)
     (hR : TokenFree h c) (hOld : OldOnlyFree h c) :
     matchHandler h c = true ↔ DocSpec h c := by
   obtain ⟨lI, aI⟩ := matchesLabels_iff h c
@@ -350,19 +356,19 @@ theorem match_eq_doc_partial (h : Handler V) (c : Cause V)
         cases h.changing <;> cases c.changing <;> simp
 
 /-- for `@on.update` / `@on.field` handlers the first guard is void -/
-theorem match_eq_doc_update_partial (h : Handler V) (c : Cause V) (hu : IsUpdate h)
+theorem match_eq_doc_update_partial [PyLaw V] (h : Handler V) (c : Cause V) (hu : IsUpdate h)
     (hR : TokenFree h c) : matchHandler h c = true ↔ DocSpec h c :=
   match_eq_doc_partial h c hR (fun _ _ _ _ hnu => absurd hu hnu)
 
 /-- for causes without an old state (`cause.old is None`: creations) the first guard is void
     (/repo bd6cd41): match = the documented criteria for EVERY handler kind; only the private-token
     guard stays -/
-theorem match_eq_doc_creation_partial (h : Handler V) (c : Cause V) (hno : c.noOld = true)
+theorem match_eq_doc_creation_partial [PyLaw V] (h : Handler V) (c : Cause V) (hno : c.noOld = true)
     (hR : TokenFree h c) : matchHandler h c = true ↔ DocSpec h c :=
   match_eq_doc_partial h c hR (fun _ _ _ _ _ hno' => by simp [hno] at hno')
 
 /-- for watching / spawning / indexing causes (the object's only state) the first guard is void -/
-theorem match_eq_doc_nonchanging_partial (h : Handler V) (c : Cause V) (hc : c.changing = false)
+theorem match_eq_doc_nonchanging_partial [PyLaw V] (h : Handler V) (c : Cause V) (hc : c.changing = false)
     (hR : TokenFree h c) : matchHandler h c = true ↔ DocSpec h c :=
   match_eq_doc_partial h c hR (fun _ _ _ hc' => by simp [hc] at hc')
 
@@ -409,6 +415,49 @@ theorem creation_value_current_only (h : Handler V) (c : Cause V) (hc : c.changi
   have hhas : hasField h = true := (hasField_true_iff h).2 ⟨p, hf, hp⟩
   rw [fvCore_creation h c hc hno hna, path_of_field h p hf, hhas]
   simpa using holdsCode_iff h.value (c.new p) (fun _ => hdoc)
+
+/- THE CLAUSE 'old/new transition criteria together with "the field actually changed"' (/repo 8d1358b,
+   finding C04-F12 seen from this property). -/
+
+/-- FULL (no guard; `PyLaw`: JSON equality refines Python's `==`, proved for parsed JSON): the code's
+    decision -- by identity with the absent marker on a side, else `bool(diffs.diff(old, new)) or old != new`
+    -- is exactly "the two states of the field are not the same JSON value": a change of presence counts, a
+    change between a boolean and the number Python equates with it counts (`1 -> true`), equal values in
+    another key order do not. -/
+theorem field_changed_iff [PyLaw V] (o n : Option V) : fieldChanged o n = true ↔ Affected o n := by
+  rw [fieldChanged_eq]; simp [Affected]
+
+/-- … so an `@on.update(field=…)` / `@on.field` handler without old=/new=/value= criteria on a changing
+    cause passes the change gate iff its field actually changed -/
+theorem field_handler_change_gate [PyLaw V] (h : Handler V) (c : Cause V) (p : List String)
+    (hf : h.field = some p) (hp : p ≠ []) (hh : h.changing = true) (hc : c.changing = true)
+    (hn : h.fieldNeedsChange = true) (ho : h.old = .unset) (hw : h.new = .unset) :
+    matchesFieldChanges h c = true ↔ Affected (c.old p) (c.new p) := by
+  have hhas : hasField h = true := (hasField_true_iff h).2 ⟨p, hf, hp⟩
+  have hpath : path h = p := path_of_field h p hf
+  simp [matchesFieldChanges, fcCore, changeCore, sideCore, sideAtoms, VCrit.isUnset, hh, hc, hn, ho, hw, hhas, hpath,
+    field_changed_iff]
+
+/-- nothing that was a change before the repair (Python's `!=`) stops being one -/
+theorem field_changed_of_before (o n : Option V) (h : fieldChangedBefore o n = true) : fieldChanged o n = true :=
+  fieldChanged_of_before o n h
+
+/-- REGRESSION (C04-F12 / the state before /repo 8d1358b): `spec.f: 1 -> true`, `0 -> false`, `[1] -> [true]`,
+    `{"k": 0} -> {"k": false}` ARE changes of the field (the diff says so: the cause is an update), but
+    Python's `!=` does not see them: the handler of exactly the field that changed was never selected. The
+    same values in another key order are no change, before and after. -/
+theorem field_changed_bool_regression :
+    (fieldChanged (some (J.num 1)) (some (J.bool true)) = true ∧
+      fieldChangedBefore (some (J.num 1)) (some (J.bool true)) = false) ∧
+    (fieldChanged (some (J.bool false)) (some (J.num 0)) = true ∧
+      fieldChangedBefore (some (J.bool false)) (some (J.num 0)) = false) ∧
+    (fieldChanged (some (J.arr [.num 1])) (some (J.arr [.bool true])) = true ∧
+      fieldChangedBefore (some (J.arr [.num 1])) (some (J.arr [.bool true])) = false) ∧
+    (fieldChanged (some (J.obj [("k", .num 0)])) (some (J.obj [("k", .bool false)])) = true ∧
+      fieldChangedBefore (some (J.obj [("k", .num 0)])) (some (J.obj [("k", .bool false)])) = false) ∧
+    (fieldChanged (some (J.obj [("a", .num 1), ("b", .num 2)])) (some (J.obj [("b", .num 2), ("a", .num 1)])) = false) ∧
+    (fieldChanged (some (J.num 1)) (some (J.num 1)) = false ∧ fieldChanged (none : Option J) none = false ∧
+      fieldChanged none (some (J.num 1)) = true ∧ fieldChanged (some J.null) none = true) := by decide
 
 /-- match ⇒ prematch (prematch drops exactly the change-related conjunct) -/
 theorem prematch_of_match (h : Handler V) (c : Cause V) (hm : matchHandler h c = true) :
@@ -1012,6 +1061,134 @@ theorem resource_criterion_doc_partial (h : Handler V) (sel : Option Selector) (
     rw [← selector_check_iff_partial s r (hk8s s rfl)]
 
 -- ---------------------------------------------------------------------------------------------
+-- THE WHOLE CYCLE: "for every event the set of handlers invoked is exactly the set whose declared
+-- criteria all hold", on the model of process_resource_event (every variant, every object state: marked,
+-- blocked, DELETED events, carried patches, leftover records): what the cycle does for on.event
+-- handlers, for daemons/timers and -- when it handles -- for change handlers, by handler id.
+
+/-- the handler ids the cycle invokes on.event handlers for -/
+def watchedIds : List Effect → List String
+  | [] => []
+  | .invokeWatching is :: rest => is ++ watchedIds rest
+  | _ :: rest => watchedIds rest
+
+/-- the handler ids the cycle hands to the spawner -/
+def spawnedIds : List Effect → List String
+  | [] => []
+  | .spawn is :: rest => is ++ spawnedIds rest
+  | _ :: rest => spawnedIds rest
+
+theorem watchedIds_append (a b : List Effect) : watchedIds (a ++ b) = watchedIds a ++ watchedIds b := by
+  induction a with
+  | nil => rfl
+  | cons e rest ih => cases e <;> simp [watchedIds, ih, List.append_assoc]
+
+theorem spawnedIds_append (a b : List Effect) : spawnedIds (a ++ b) = spawnedIds a ++ spawnedIds b := by
+  induction a with
+  | nil => rfl
+  | cons e rest ih => cases e <;> simp [spawnedIds, ih, List.append_assoc]
+
+/-- no handler of the registry is for this resource ⇒ nothing is selected from it -/
+theorem getHandlersPlain_nil_of_not_hasHandlers (hs : List (Handler V)) (c : Cause V) (ex : List String)
+    (h : hasHandlers hs = false) : getHandlersPlain hs c ex = [] := by
+  have : iterPlain hs c ex = [] := by
+    simp only [iterPlain, List.filter_eq_nil_iff]
+    intro x hx
+    simp only [hasHandlers, List.any_eq_false] at h
+    have hr := h x hx
+    simp only [selPlain, selPlainCore, selAtoms, matchHandler, matchCore, matchAtoms, Bool.and_eq_true, not_and]
+    intro _ hm
+    simp_all
+  simp [getHandlersPlain, this, dedup, dedupBy, dedupByAux]
+
+/-- id-level reading of `get_handlers` of a watching / spawning registry -/
+theorem mem_ids_getHandlersPlain (hs : List (Handler V)) (c : Cause V) (ex : List String) (i : String) :
+    i ∈ ids (getHandlersPlain hs c ex) ↔ ∃ h ∈ hs, h.id = i ∧ h.id ∉ ex ∧ matchHandler h c = true := by
+  simp only [ids, List.mem_map]
+  constructor
+  · rintro ⟨h', hm, rfl⟩
+    obtain ⟨h1, h2, h3⟩ := (selected_sound hs c ex h').2 hm
+    exact ⟨h', h1, rfl, h2, h3⟩
+  · rintro ⟨h, h1, rfl, h2, h3⟩
+    obtain ⟨h', hm, hk⟩ := ((selected_iff hs c ex h.key).2).2 ⟨h, h1, rfl, h2, h3⟩
+    refine ⟨h', hm, ?_⟩
+    simpa [Handler.key] using congrArg Prod.snd hk
+
+theorem watchedIds_ite (p : Prop) [Decidable p] (a b : List Effect) :
+    watchedIds (if p then a else b) = if p then watchedIds a else watchedIds b := by split <;> rfl
+
+theorem spawnedIds_ite (p : Prop) [Decidable p] (a b : List Effect) :
+    spawnedIds (if p then a else b) = if p then spawnedIds a else spawnedIds b := by split <;> rfl
+
+theorem ite_nonempty_self {α : Type} (l : List α) : (if (!l.isEmpty) = true then l else []) = l := by
+  cases l <;> simp
+
+/-- FULL (every variant of the code, every object state, every event type): the on.event handlers the
+    cycle invokes are exactly the selected ones … -/
+theorem cycle_watch_exact (v : Repairs) (r : Registry V) (cs : Causes V) (o : Obj) (stopped : List String) :
+    watchedIds (cycleAt v r cs o stopped) = ids (getHandlersPlain r.watching cs.watching []) := by
+  cases hW : hasHandlers r.watching with
+  | false =>
+    simp only [cycleAt, cycleFull, finishCycle, purgeEffect, hW, Bool.false_and, watchedIds_append, watchedIds_ite,
+      watchedIds, List.append_nil, List.nil_append, ite_self, Bool.false_eq_true, if_false]
+    simp [getHandlersPlain_nil_of_not_hasHandlers _ _ _ hW, ids]
+  | true =>
+    simp only [cycleAt, cycleFull, finishCycle, purgeEffect, hW, Bool.true_and, watchedIds_append, watchedIds_ite,
+      watchedIds, List.append_nil, List.nil_append, ite_self, ite_nonempty_self]
+
+/-- … i.e., by id: a handler id is invoked iff one of its registrations matches (all of `match`: resource
+    selector, labels, annotations, field/value, `when`) -/
+theorem cycle_watch_iff (v : Repairs) (r : Registry V) (cs : Causes V) (o : Obj) (stopped : List String)
+    (i : String) :
+    i ∈ watchedIds (cycleAt v r cs o stopped) ↔ ∃ h ∈ r.watching, h.id = i ∧ matchHandler h cs.watching = true := by
+  rw [cycle_watch_exact, mem_ids_getHandlersPlain]; simp
+
+/-- FULL: the daemons/timers handed to the spawner are exactly the selected ones that are not stopped for
+    good -- none at all for an object in deletion -/
+theorem cycle_spawn_exact (v : Repairs) (r : Registry V) (cs : Causes V) (o : Obj) (stopped : List String) :
+    spawnedIds (cycleAt v r cs o stopped) =
+      if o.ongoing then [] else ids (getHandlersPlain r.spawning cs.spawning stopped) := by
+  cases hS : hasHandlers r.spawning with
+  | false =>
+    simp only [cycleAt, cycleFull, finishCycle, purgeEffect, hS, Bool.false_and, spawnedIds_append, spawnedIds_ite,
+      spawnedIds, List.append_nil, List.nil_append, ite_self, Bool.false_eq_true, if_false]
+    simp [getHandlersPlain_nil_of_not_hasHandlers _ _ _ hS, ids]
+  | true =>
+    cases hO : o.ongoing <;>
+    simp only [cycleAt, cycleFull, finishCycle, purgeEffect, hS, hO, Bool.true_and, Bool.not_true, Bool.not_false,
+      Bool.false_and, spawnedIds_append, spawnedIds_ite, spawnedIds, List.append_nil, List.nil_append, ite_self,
+      ite_nonempty_self, Bool.false_eq_true, if_false, if_true]
+
+theorem cycle_spawn_iff (v : Repairs) (r : Registry V) (cs : Causes V) (o : Obj) (stopped : List String)
+    (i : String) :
+    i ∈ spawnedIds (cycleAt v r cs o stopped) ↔
+      o.ongoing = false ∧ ∃ h ∈ r.spawning, h.id = i ∧ h.id ∉ stopped ∧ matchHandler h cs.spawning = true := by
+  rw [cycle_spawn_exact]
+  cases o.ongoing <;> simp [mem_ids_getHandlersPlain]
+
+theorem mem_ite_single {α : Type} (p : Prop) [Decidable p] (e x : α) :
+    e ∈ (if p then [x] else []) ↔ p ∧ e = x := by
+  split <;> simp [*]
+
+theorem mem_ite_single' {α : Type} (p : Prop) [Decidable p] (e x : α) :
+    e ∈ (if p then [] else [x]) ↔ ¬p ∧ e = x := by
+  split <;> simp [*]
+
+/-- FULL: when the cycle handles, the change handlers it passes to the handling are exactly
+    `cause_handlers` -- the selected ones minus the resuming handlers that have finished here -- for
+    the causes that have handlers at all (create/update/delete/resume), none for the others; whatever
+    the variant, the object state, the event type. (Which of them are INVOKED in this very cycle is C02's
+    planning: all of them when nothing is recorded yet and the lifecycle is all-at-once,
+    `matching_invoked_fresh`.) -/
+theorem cycle_handle_exact (v : Repairs) (r : Registry V) (cs : Causes V) (o : Obj) (stopped : List String)
+    (is : List String) (h : Effect.handle is ∈ cycleAt v r cs o stopped) :
+    is = if C05.handlerReasons.contains cs.changing.kind.reason
+         then ids (causeHandlers r.changing cs.changing o.resumed) else [] := by
+  simp only [cycleAt, cycleFull, finishCycle, purgeEffect, List.mem_append, mem_ite_single, mem_ite_single',
+    reduceCtorEq, and_false, or_false, false_or, Effect.handle.injEq] at h
+  exact h.2
+
+-- ---------------------------------------------------------------------------------------------
 -- witnesses of the three gaps (each is replayed on the real code from corpus/C15/F1..F3, d06)
 -- and non-vacuity examples
 
@@ -1288,6 +1465,25 @@ theorem selector_gap_events_k8s_witness :
     (fun _ e => by cases e), ?_, (fun _ e => by cases e)⟩
   intro _ hc; exact absurd hc.1 (by decide)
 
+def corePods : Resource :=
+  { group := "", version := "v1", plural := "pods", kind := some "Pod", singular := some "pod", shortcuts := ["po"],
+    categories := ["all"], preferred := true }
+def podMetrics : Resource :=
+  { group := "metrics.k8s.io", version := "v1beta1", plural := "pods", kind := some "PodMetrics", singular := none,
+    shortcuts := [], categories := [], preferred := true }
+
+/-- NEGATIVE (finding C15-F11, replayed from corpus/C15/F11.json): docs/resources.rst, "v1 resources have
+    priority over all other resources … so just "pods" can be specified and the intention will be understood" --
+    among core pods and pods.metrics.k8s.io the specification "pods" stands for the core resource only, and that is
+    what is WATCHED for it (`select`); but a handler's resource criterion is `check` alone, which holds for the
+    metrics resource as well: once that resource is watched for another handler's sake (a category, EVERYTHING, a
+    callable), the "pods" handler runs for its objects too. -/
+theorem selector_served_gap_witness :
+    let s : Selector := { anyName := some (.name "pods") }
+    ((s.select [corePods, podMetrics]).map (·.group) = [""]) ∧ s.check podMetrics = true ∧
+    (({ anyName := some .everything } : Selector).select [corePods, podMetrics]).map (·.group) = ["", "metrics.k8s.io"] := by
+  decide
+
 -- non-vacuity of `selector_check_iff_*`: ('kopf.dev', 'kex') and kind='KopfExample' select the
 -- resource, ('kopf.dev/v2', …) and a non-preferred version do not; EVERYTHING selects it, and core
 -- v1 events are skipped by EVERYTHING but selected by name
@@ -1364,6 +1560,18 @@ example : (wDel none).kind.marked = true ∧ IsSubHandler (wSub 1 "del/a") ∧
     (wSub 1 "del/a").fieldNeedsChange = false ∧ selChanging (wDel none) [] (wSub 1 "del/a") = true ∧
     selChanging (wDel none) ["del/a"] (wSub 1 "del/a") = false :=
   ⟨rfl, ⟨rfl, rfl⟩, rfl, by decide, by decide⟩
+
+-- the whole-cycle theorems are not vacuous: a cycle that invokes an on.event handler and hands a timer to the
+-- spawner (an object with the label), one that does neither (another label; an object in deletion is not
+-- spawned for), and one that handles
+example :
+    let h := { wH false .unset false .unset .unset (some [("lk", .value "x")]) true with field := none }
+    let r : Registry J := { watching := [h], spawning := [h], changing := [] }
+    watchedIds (cycle r (wCs (some "x")) wO []) = ["h"] ∧ spawnedIds (cycle r (wCs (some "x")) wO []) = ["h"] ∧
+    watchedIds (cycle r (wCs (some "y")) wO []) = [] ∧ spawnedIds (cycle r (wCs (some "y")) wO []) = [] ∧
+    watchedIds (cycle r (wCs (some "x")) { wO with ongoing := true } []) = ["h"] ∧
+    spawnedIds (cycle r (wCs (some "x")) { wO with ongoing := true } []) = [] := by decide
+example : Effect.handle ["h"] ∈ cycleAt Repairs.head wR (wCs (some "v")) (wO true) [] := by decide
 
 end Witnesses
 
